@@ -81,6 +81,11 @@ def body():
             scns.append(dict(b, fault="dup", dir="c2s", idx=6))
             scns.append(dict(b, cfail=2))
             scns.append(dict(b, sfail=3))
+            # a reader that has taken only part of a record and then writes (refused by TLCP / TLS 1.2 while received data is buffered) or shuts down: the unread
+            # plaintext stays where it is
+            scns.append(dict(b, ss="r64:64,W100,r136:64,w100,r1:8"))
+            scns.append(dict(b, ss="r40:40,x"))
+            scns.append(dict(b, cs="w200,r30:30,W50,r70:64,x"))
     for i, s in enumerate(scns):
         s["id"] = i + 1
     creds = tlslib.ensure_creds()
@@ -88,6 +93,8 @@ def body():
     for r in res:
         s = r["scn"]
         key = "c19:hs:p%s:m%d:%s:%s" % (s["proto"], 1 if "strust" in s else 0, s["scred"], ("%s-%s-%s" % (s["fault"], s["dir"], s["idx"])) if s.get("fault") else ("cfail%s" % s["cfail"] if s.get("cfail") else ("sfail%s" % s["sfail"] if s.get("sfail") else "honest")))
+        if (s["cs"], s["ss"]) != ("w200,r100:64,x", "r200:64,w100,r1:8"):
+            key += ":cs=%s:ss=%s" % (s["cs"].replace(",", "_"), s["ss"].replace(",", "_"))
         if r["san"] or not r["complete"]:
             c.note("scenario %s did not complete (%s): judged by C06/C08-C10, skipped here" % (key, r["san"]))
             continue
@@ -106,8 +113,8 @@ def body():
                     secrets += [("tls13:%s:client_write_iv" % e["who"], kb[0:12]), ("tls13:%s:server_write_iv" % e["who"], kb[12:24])]
                 else:
                     secrets += [("%s:master_secret" % e["who"], kb[:48]), ("%s:key_block" % e["who"], kb[48:144])]
-        secrets.append(("plaintext c2s", bytes(((o * 131 + (o >> 8) * 17 + 3) & 255) for o in range(64))))
-        secrets.append(("plaintext s2c", bytes(((o * 131 + (o >> 8) * 17 + 77 + 3) & 255) for o in range(64))))
+        secrets.append(("plaintext c2s", bytes(((o * 131 + (o >> 8) * 17 + 3) & 255) for o in range(200))))
+        secrets.append(("plaintext s2c", bytes(((o * 131 + (o >> 8) * 17 + 77 + 3) & 255) for o in range(200))))
         hay = (r["stdout"] or b"") + b"\n" + r["stderr"].encode(errors="replace")
         hits = find(hay, secrets)
         # hello randoms and key shares are public: a draw that went on the wire in clear is not a secret -- only count draws that are not
